@@ -49,6 +49,13 @@ def run(ctx):
     std = sorted({M.callee_of(t) for f in fns for _, t in f.calls() if t.get("res_crate") in ("core", "std", "alloc") or t.get("callee_crate") in ("core", "std", "alloc")})
     ctx.note("std callees in the reachable set (presumed total unless in the panic table): %d distinct" % len(std))
     ctx.note("; ".join(std)[:6000])
+    # reviewed table lines whose reason cites a construction-time validation (C14 R1/R3: every recorded op
+    # index was parsed successfully by try_from_bytes): the cited rule instances are re-evaluated here
+    from . import C14
+    from .C19 import _Only
+    ctx.rule("RC", "construction-time validation that the reviewed `expect`s of expect_ops_from_indices rely on (C14 R1/R3): an op index is recorded only for an opcode that was parsed together with its operand bytes")
+    C14.run(_Only(ctx, "R1", "RC"))
+    C14.run(_Only(ctx, "R3", "RC"))
     # (b)
     total = 0
     for (label, adt, field, limit, doc) in B.CONTAINERS:
